@@ -1,20 +1,26 @@
 (* Properties/C04.v -- The decoder accepts every standard-conformant codeword stream (the part that is a theorem). *)
 From Coq Require Import NArith List Bool.
-From DM Require Import Generated.ModeTables Model.Outcome Model.Dec Spec.Stream16022 Proofs.DecStream.
+From DM Require Import Generated.ModeTables Model.Outcome Model.Dec Spec.Stream16022 Proofs.DecStream Proofs.DecStreamC40 Proofs.DecScript.
 Import ListNotations.
 Local Open Scope N_scope.
 
-(* For the ASCII / Base256 / padding fragment of ISO/IEC 16022 the statement holds for ALL inputs and ALL encoder
-   choices: whatever script an independent encoder follows -- any segmentation of the message into ASCII runs
-   (each digit pair encoded as a pair or as two single characters, bytes >= 128 via Upper Shift) and Base256 runs
-   (any length 1..1555 with a one- or two-codeword length field, or the run-to-the-end-of-symbol form as the
-   last segment), in any order and number, followed by any amount of correct padding (i.e. any symbol capacity) --
-   the model of data::decode_data returns exactly the bytes the script encodes.  `stream`, `script_ok`, `meaning`
-   are defined in Spec/Stream16022.v from the encoder's side of the standard, without reference to the decoder. *)
-Theorem C04_ascii_base256 : forall segs npad, script_ok segs npad = true ->
+(* For ASCII, Base256, C40, Text and X12 runs and padding -- five of the six encodation schemes of ISO/IEC 16022 --
+   the statement holds for ALL inputs and ALL encoder choices: whatever script an independent encoder follows,
+   i.e. any sequence of
+     - ASCII runs (each digit pair encoded as a pair or as two single characters, bytes >= 128 via Upper Shift),
+     - Base256 runs (any length 1..1555 with a one- or two-codeword length field, or, as the last segment, the
+       run-to-the-end-of-symbol form),
+     - C40 and Text runs over arbitrary bytes (basic set, Shift 1/2/3, Upper Shift for bytes >= 128; optionally one
+       Shift-1 filler value completing the last triple), ended by Unlatch or -- at the end of the symbol -- by
+       nothing, possibly followed by one last ASCII-encoded codeword,
+     - X12 runs over the X12 alphabet with the same two ways of ending,
+   followed by any amount of correct padding (i.e. any symbol capacity), the model of data::decode_data returns
+   exactly the bytes the script encodes.  `stream`, `script_ok`, `meaning` are defined in Spec/Stream16022.v from the
+   encoder's side of the standard (Tables 2 and 3, 5.2.x, Annex B), without reference to the decoder. *)
+Theorem C04_scripts : forall segs npad, script_ok segs npad = true ->
   decode_data (stream segs npad) = Ok (meaning segs).
 Proof. exact decode_script. Qed.
-Print Assumptions C04_ascii_base256.
+Print Assumptions C04_scripts.
 
 (* the two randomising algorithms of Annex B are undone by the decoder at every position *)
 Theorem C04_randomisers : forall pos,
@@ -23,13 +29,20 @@ Theorem C04_randomisers : forall pos,
 Proof. intros pos. split; [intros ch H; now apply derand255|apply derand253_pad]. Qed.
 Print Assumptions C04_randomisers.
 
-(* NOT a theorem here: the same statement for scripts containing C40, Text, X12 and EDIFACT runs (shift sets,
-   3-in-2 and 4-in-3 packing, their end-of-symbol forms) and Macro/FNC1/ECI headers.  Those are decided per case: an
+(* every byte, in both sets, is restored from its Table-2 values by the decoder's shift-state machine *)
+Theorem C04_c40_tables : forall text ch out, ch < 256 ->
+  run_vals (fst (tabs text)) (snd (tabs text)) (c40_vals text ch) 0 false out = Ok (0, false, out ++ [ch]).
+Proof. intros text ch out H. exact (proj2 (c40_char text ch out H)). Qed.
+Print Assumptions C04_c40_tables.
+
+(* NOT a theorem here: scripts containing EDIFACT runs and Macro/FNC1/ECI headers.  Those are decided per case: an
    independent reference encoder (tools/props/refenc.py) draws random legal scripts over all six modes with every
    termination form and capacity, and the implementation (tied to this model by the correspondence) must decode
    each stream to the script's bytes. *)
 Example C04_example :
-  let script := [SAscii [AChar 65; APair 49 50; AUpper 200]; SB256 [0; 255; 129]; SAscii [AChar 66]; SB256End [7; 8]] in
-  script_ok script 0 = true /\ decode_data (stream script 0) = Ok [65; 49; 50; 200; 0; 255; 129; 66; 7; 8] /\
+  let script := [SAscii [AChar 65; APair 49 50; AUpper 200]; SB256 [0; 255; 129]; SC40 false [72; 105; 33; 200] true TUnlatch;
+                 SX12 [65; 49; 13] TUnlatch; SC40 true [97; 98; 99] false TEnd; SAscii [AChar 66]] in
+  script_ok script 0 = true /\
+  decode_data (stream script 0) = Ok [65; 49; 50; 200; 0; 255; 129; 72; 105; 33; 200; 65; 49; 13; 97; 98; 99; 66] /\
   script_ok [SAscii [AChar 65]] 7 = true /\ length (stream [SAscii [AChar 65]] 7) = 8%nat.
 Proof. vm_compute. repeat split. Qed.
